@@ -483,12 +483,39 @@ func (x *Decimal) Float(z *big.Float) *big.Float {
 	return z.SetPrec(p)
 }
 
+// saturatedFloat handles finite values whose exponent alone puts them beyond
+// the range of the binary format: ±Inf for x.exp > maxExp, ±0 for
+// x.exp < minExp, with the accuracy documented for Float32 and Float64. (The
+// big.Float used otherwise overflows on huge exponents and reported Exact.)
+func (x *Decimal) saturatedFloat(maxExp, minExp int32) (float64, Accuracy, bool) {
+	if x.form != finite {
+		return 0, Exact, false
+	}
+	switch {
+	case x.exp > maxExp:
+		if x.neg {
+			return math.Inf(-1), Below, true
+		}
+		return math.Inf(1), Above, true
+	case x.exp < minExp:
+		if x.neg {
+			return math.Copysign(0, -1), Above, true
+		}
+		return 0, Below, true
+	}
+	return 0, Exact, false
+}
+
 // Float32 returns the float32 value nearest to x. If x is too small to be
 // represented by a float32 (|x| < math.SmallestNonzeroFloat32), the result
 // is (0, Below) or (-0, Above), respectively, depending on the sign of x.
 // If x is too large to be represented by a float32 (|x| > math.MaxFloat32),
 // the result is (+Inf, Above) or (-Inf, Below), depending on the sign of x.
 func (x *Decimal) Float32() (float32, Accuracy) {
+	// 10**39 > math.MaxFloat32, 10**-46 < math.SmallestNonzeroFloat32/2
+	if f, acc, ok := x.saturatedFloat(39, -46); ok {
+		return float32(f), acc
+	}
 	z := x.Float(new(big.Float).SetPrec(32))
 	f, a := z.Float32()
 	// If big.Float -> float64 conversion is accurate, use Decimal->Float accuracy.
@@ -504,6 +531,10 @@ func (x *Decimal) Float32() (float32, Accuracy) {
 // If x is too large to be represented by a float64 (|x| > math.MaxFloat64),
 // the result is (+Inf, Above) or (-Inf, Below), depending on the sign of x.
 func (x *Decimal) Float64() (float64, Accuracy) {
+	// 10**309 > math.MaxFloat64, 10**-324 < math.SmallestNonzeroFloat64/2
+	if f, acc, ok := x.saturatedFloat(309, -324); ok {
+		return f, acc
+	}
 	z := x.Float(new(big.Float).SetPrec(64))
 	f, a := z.Float64()
 	// If big.Float -> float64 conversion is accurate, use Decimal->Float accuracy.
